@@ -43,6 +43,98 @@ impl QueueCapacity {
 
 pub struct Counts { pub tag: u8 }
 
+// ---- the stream store, abstractly.
+// `store::Ptr` is a (key, &mut Store) pair; Verus cannot return `&mut` into a container, so a Ptr handed out by
+// `Queue::pop` is modelled as the OWNED stream taken out of the store, and the store keeps, as ghost state, the
+// sum of the send capacity assigned to the streams still inside (`others`).  Where the real code lets a Ptr go
+// out of scope (`continue`) or consumes it (`Counts::transition_after`), the stream returns to the store:
+// `Store::put_back` is inserted by listed substitutions before each `continue`; it REQUIRES the stream
+// invariant again, which is what turns "every path leaves the stream well-formed" into proof obligations.
+pub struct Store { pub others: Ghost<int> }
+
+/// I-cap / I-send-pool for one stream, as kept by every function of send.rs / prioritize.rs:
+///   0 <= assigned <= max(window, 0), assigned <= requested,
+///   a stream whose send half is closed keeps capacity only for data that is still buffered
+///   (so: closed and flushed  ==>  assigned == 0 — nothing leaks when the stream is forgotten).
+pub open spec fn stream_inv(s: Stream) -> bool {
+    &&& wf_send(s)
+    &&& s.state.send_closed() ==> s.send_flow.a() <= s.buffered_send_data
+    &&& s.buffered_send_data <= 0x7fff_ffff
+    // buffered_send_data accounts for (at least) every queued DATA byte; the rest is the tail of a frame the
+    // codec is writing
+    &&& queued_bytes(s.pending_send@) <= s.buffered_send_data
+}
+
+impl Store {
+    pub open spec fn sum(self) -> int { self.others@ }
+
+    #[verifier::external_body]
+    pub fn put_back(&mut self, stream: Stream)
+        requires stream_inv(stream),
+        ensures final(self).sum() == old(self).sum() + stream.send_flow.a(),
+    { unimplemented!() }
+}
+
+impl QueueSend {
+    /// store::Queue<NextSend>::pop: the head of the list, un-flagged; None iff the list is empty.
+    #[verifier::external_body]
+    pub fn pop(&mut self, store: &mut Store) -> (r: Option<Stream>)
+        requires old(store).sum() >= 0,
+        ensures
+            match r {
+                Some(s) => stream_inv(s) && !s.is_pending_send && !s.is_pending_open && !s.is_pending_push
+                    && 0 <= s.send_flow.a() <= old(store).sum() && final(store).sum() == old(store).sum() - s.send_flow.a()
+                    // I-sched (ASSUMED, kept by every site that pushes onto pending_send or empties a queue): a stream
+                    // waits on pending_send only with frames queued, with a reset scheduled, or after its queue was
+                    // cleared by a reset/error (then it is closed)
+                    && ((s.pending_send@.len() == 0 && s.state.scheduled() is None) ==> s.state.closed()),
+                None => final(store).sum() == old(store).sum(),
+            },
+    { unimplemented!() }
+}
+
+impl QueueOpen {
+    #[verifier::external_body]
+    pub fn push(&mut self, stream: &mut Stream) -> (r: bool)
+        requires !old(stream).is_pending_send,   // the debug_assert in NextOpen::set_queued
+        ensures *final(stream) == (Stream { is_pending_open: true, ..*old(stream) }),
+    { unimplemented!() }
+}
+
+impl Counts {
+    /// Counts::transition_after consumes the Ptr: the stream goes back to the store (or is forgotten when
+    /// released).  ASSUMED contract here; the real body is verified by the Kani harness counts_transition_after.
+    /// The precondition is the capacity-leak obligation: a stream that is about to be forgotten holds no capacity.
+    #[verifier::external_body]
+    pub fn transition_after(&mut self, stream: Stream, is_reset_counted: bool, store: &mut Store)
+        requires
+            stream_inv(stream),
+            stream.released() ==> stream.send_flow.a() == 0,
+        ensures final(store).sum() == old(store).sum() + stream.send_flow.a(),
+    { unimplemented!() }
+}
+
+/// The non-DATA arm of pop_frame: `frame.map(|_| unreachable!())` only changes the payload type parameter.
+pub fn map_non_data(f: QFrame) -> (r: Frame<Prioritized>)
+    requires !(f is Data),
+    ensures
+        match f {
+            Frame::Headers(h) => r == Frame::<Prioritized>::Headers(h),
+            Frame::PushPromise(p) => r == Frame::<Prioritized>::PushPromise(p),
+            Frame::Reset(x) => r == Frame::<Prioritized>::Reset(x),
+            Frame::Other(k) => r == Frame::<Prioritized>::Other(k),
+            Frame::Data(_) => false,
+        },
+{
+    match f {
+        Frame::Headers(h) => Frame::Headers(h),
+        Frame::PushPromise(p) => Frame::PushPromise(p),
+        Frame::Reset(x) => Frame::Reset(x),
+        Frame::Other(k) => Frame::Other(k),
+        Frame::Data(_) => { assert(false); Frame::Other(0) }
+    }
+}
+
 #[derive(PartialEq, Eq, Structural, Clone, Copy, Debug)]
 pub enum InFlightData {
     Nothing,
@@ -120,6 +212,9 @@ impl Prioritize {
             final(store).requested_send_capacity == old(store).requested_send_capacity,
             final(store).buffered_send_data == old(store).buffered_send_data,
             final(store).state == old(store).state,
+            final(store).pending_send == old(store).pending_send && final(store).key == old(store).key && final(store).id == old(store).id,
+            final(store).is_pending_open == old(store).is_pending_open && final(store).is_pending_push == old(store).is_pending_push,
+            final(self).in_flight_data_frame == old(self).in_flight_data_frame,
     { unimplemented!() }
 
     //@extract src/proto/streams/prioritize.rs Prioritize::schedule_send
@@ -161,22 +256,29 @@ impl Prioritize {
     //@spec             ==> final(stream).is_pending_send_capacity,
     //@spec         // the sender is woken when its reported capacity grew
     //@spec         final(stream).cap(final(self).max_buffer_size) > old(stream).cap(old(self).max_buffer_size) ==> final(stream).send_task is None && final(stream).send_capacity_inc,
-    //@spec         // frame
-    //@spec         final(stream).requested_send_capacity == old(stream).requested_send_capacity && final(stream).buffered_send_data == old(stream).buffered_send_data
-    //@spec             && final(stream).state == old(stream).state && final(stream).is_pending_open == old(stream).is_pending_open && final(stream).is_pending_push == old(stream).is_pending_push,
+    //@spec         // frame: only the assigned capacity, the queue flags and the sender's notification change
+    //@spec         *final(stream) == (Stream { send_flow: final(stream).send_flow, send_task: final(stream).send_task, send_capacity_inc: final(stream).send_capacity_inc,
+    //@spec             is_pending_send: final(stream).is_pending_send, is_pending_send_capacity: final(stream).is_pending_send_capacity, ..*old(stream) }),
+    //@spec         final(self).in_flight_data_frame == old(self).in_flight_data_frame,
     //@end
 
     //@extract src/proto/streams/prioritize.rs Prioritize::reclaim_all_capacity
     //@subst stream: &mut store::Ptr=>stream: &mut Stream
     //@subst let _res = stream.send_flow.claim_capacity(available);=>let _res = stream.send_flow.claim_capacity(available); assert(_res.is_ok());
     //@spec     requires
-    //@spec         wf_send(*old(stream)) && wf_pool(*old(self)),
+    //@spec         0 <= old(stream).send_flow.a() && wf_pool(*old(self)),
     //@spec         old(self).flow.a() + old(stream).send_flow.a() <= 0x7fff_ffff,
     //@spec     ensures
     //@spec         final(stream).send_flow.w() == old(stream).send_flow.w() && final(self).flow.w() == old(self).flow.w(),
-    //@spec         // everything the stream held is back in the pool or assigned onwards: nothing leaks
+    //@spec         final(self).max_buffer_size == old(self).max_buffer_size && final(self).in_flight_data_frame == old(self).in_flight_data_frame,
+    //@spec         // everything the stream held is back in the pool or assigned onwards: nothing leaks, nothing is created
     //@spec         final(self).flow.a() + final(stream).send_flow.a() <= old(self).flow.a() + old(stream).send_flow.a(),
     //@spec         final(self).flow.a() >= 0 && final(stream).send_flow.a() >= 0,
+    //@spec         // it holds nothing afterwards, unless it still wants capacity and got some of it straight back
+    //@spec         final(stream).send_flow.a() == 0 || (final(stream).send_flow.a() <= final(stream).requested_send_capacity && final(stream).send_flow.a() <= pos(final(stream).send_flow.w())),
+    //@spec         final(stream).requested_send_capacity == old(stream).requested_send_capacity && final(stream).buffered_send_data == old(stream).buffered_send_data
+    //@spec             && final(stream).state == old(stream).state && final(stream).pending_send == old(stream).pending_send && final(stream).key == old(stream).key
+    //@spec             && final(stream).id == old(stream).id && final(stream).is_pending_open == old(stream).is_pending_open && final(stream).is_pending_push == old(stream).is_pending_push,
     //@end
 
     //@extract src/proto/streams/prioritize.rs Prioritize::reclaim_reserved_capacity
@@ -327,6 +429,66 @@ impl Prioritize {
     //@spec             && (final(store).pending_send@[0] matches Frame::Data(d) && d.data.rem == frame.data.inner_rem
     //@spec                 && d.eos == (frame.eos || frame.data.end_of_stream) && d.stream_id == frame.stream_id)
     //@spec             && final(store).send_flow == old(store).send_flow && final(store).buffered_send_data == old(store).buffered_send_data,
+    //@end
+
+    /// The PushPromise arm of pop_frame looks a SECOND stream up in the store (the promised one) and moves it from
+    /// "waiting for its PUSH_PROMISE" to pending_send / pending_open.  NOT VERIFIED in this unit: replaced by this
+    /// external call (listed substitution); it does not touch the popped stream or any window.
+    #[verifier::external_body]
+    pub fn release_promised_stream(&mut self, pp: &frame::PushPromise, store: &mut Store, counts: &mut Counts)
+        ensures final(self).flow == old(self).flow && final(self).in_flight_data_frame == old(self).in_flight_data_frame
+            && final(self).max_buffer_size == old(self).max_buffer_size && final(store).sum() == old(store).sum(),
+    { unimplemented!() }
+
+    /// Connection-level invariant (I-send-pool): the unassigned pool plus everything assigned to streams is
+    /// backed by the connection window.  `held` = capacity of the stream currently taken out of the store.
+    pub open spec fn pool_inv(self, store: Store, held: int) -> bool {
+        &&& 0 <= self.flow.a() && store.sum() >= 0
+        &&& self.flow.a() + store.sum() + held <= self.flow.w()
+        &&& self.flow.w() <= 0x7fff_ffff
+    }
+
+    //@extract src/proto/streams/prioritize.rs Prioritize::pop_frame
+    //@attr #[verifier::exec_allows_no_decreases_clause]
+    //@subst pop_frame<B>(=>pop_frame(
+    //@subst buffer: &mut Buffer<Frame<B>>=>buffer: &mut Buffer
+    //@subst_re \)\s*->\s*Option<Frame<Prioritized<B>>>\s*where\s*B:\s*Buf,=>) -> (out: Option<Frame<Prioritized>>)
+    //@subst cmp::min(=>min_usize(
+    //@subst frame.into()=>Frame::Data(frame)
+    //@subst cfg!(debug_assertions)=>false
+    //@subst assert!(stream.id > self.last_opened_id);=>
+    //@subst_re Frame::Data\(frame\.map\(\|buf\| Prioritized \{.*?\}\)\)=>Frame::Data(wrap_prioritized(frame, len, eos, stream.key()))
+    //@subst_re Some\(frame\) => frame\.map\(\|_\| \{.*?\}\), ==>> Some(frame) => map_non_data(frame),
+    //@subst_re Some\(Frame::PushPromise\(pp\)\) => \{.*?Frame::PushPromise\(pp\)\s*\} ==>> Some(Frame::PushPromise(pp)) => { self.release_promised_stream(&pp, store, counts); Frame::PushPromise(pp) }
+    //@subst_re self\.pending_send\.push\(&mut stream\);\s*continue;=>self.pending_send.push(&mut stream); store.put_back(stream); continue;
+    //@subst_re stream\.pending_send\.push_front\(buffer, Frame::Data\(frame\)\);\s*continue;=>proof { lemma_queued_push_front(Frame::Data(frame), stream.pending_send@); } stream.pending_send.push_front(buffer, Frame::Data(frame)); store.put_back(stream); continue;
+    //@before let frame = match stream.pending_send.pop_front(buffer) {=>proof { if stream.pending_send@.len() > 0 { lemma_queued_first(stream.pending_send@); } }
+    //@subst counts.transition_after(stream, is_pending_reset);=>counts.transition_after(stream, is_pending_reset, store);
+    //@spec     requires
+    //@spec         old(self).pool_inv(*old(store), 0),
+    //@spec         16_384 <= max_len <= 0xff_ffff,
+    //@spec         // buffer_pending reclaims the frame the codec finished before it asks for the next one
+    //@spec         old(self).in_flight_data_frame == InFlightData::Nothing,
+    //@spec     ensures
+    //@spec         final(self).pool_inv(*final(store), 0),
+    //@spec         final(self).in_flight_data_frame == old(self).in_flight_data_frame,
+    //@spec         out matches Some(Frame::Data(d)) ==> {
+    //@spec             let len = d.data.limit as int;
+    //@spec             // C02: what leaves is charged to the connection window exactly, within it, within the max frame size;
+    //@spec             // non-empty DATA needs a positive connection window
+    //@spec             &&& final(self).flow.w() == old(self).flow.w() - len
+    //@spec             &&& len <= max_len && len <= old(self).flow.w()
+    //@spec             &&& (len > 0 ==> old(self).flow.w() > 0)
+    //@spec             // C01: the piece is the first `len` bytes of the queued payload; END_STREAM only on the last piece
+    //@spec             &&& len <= d.data.inner_rem
+    //@spec             &&& d.eos == (d.data.end_of_stream && len == d.data.inner_rem)
+    //@spec         },
+    //@spec         !(out matches Some(Frame::Data(_))) ==> final(self).flow.w() == old(self).flow.w(),
+    //@loop 0     invariant
+    //@loop 0         self.pool_inv(*store, 0),
+    //@loop 0         self.flow.w() == old(self).flow.w(),
+    //@loop 0         self.in_flight_data_frame == InFlightData::Nothing && old(self).in_flight_data_frame == InFlightData::Nothing,
+    //@loop 0         16_384 <= max_len <= 0xff_ffff,
     //@end
 }
 
